@@ -107,7 +107,9 @@ def exact_prefix(level, k, long_):
 
 CPREFIX = {  # container-level prefixes (inflectable ones must end with a delimiter)
     "L": ("lf_pre_", "LF.x:"),
-    "M": ("Mid-pre-", "MD@"),
+    # the same text as `prefix` and as `exact_prefix` of sibling types with the same field
+    # identifiers (a name must not depend on what was expanded before it)
+    "M": ("mid_pre_", "mid_pre_"),
     "R": ("rootPre_", "RT#"),
     "Q": ("rootPre_", "RT#"),
     "P": ("par_pre-", "PA!"),
